@@ -209,3 +209,7 @@ prop("C08", modules=["crash"],
               "memento_run_local swallows an OSError of memoize and recomputes on an OSError of read_result: proved under C02 / C10"],
      assumptions=["one process writes (C09 is not applicable); a crash state is the state after some primitive's normal or exceptional outcome",
                   "after a failed write the memory cache may hold the entry the store lacks (it carries the value); cache/store coherence after an OSError is not claimed"])
+
+# thorough tier: every property also runs the native demonstrations of its repaired defects as a bounded regression guard (contracts/extra.py)
+for _pid, _cfg in PROPS.items():
+    _cfg["extra_checks"] = list(_cfg.get("extra_checks", [])) + ["contracts.extra:fixed_demos"]
